@@ -652,6 +652,8 @@ static void run_one(case_t const& c)
         // trg[0]: the predecessor (manual leaf sending a counted value), trg[1]: the scheduler
         trg.push_back(new trigger{0});
         trg.push_back(new trigger{1});
+        // sthrow=1: storing the predecessor's value throws (finding C03x-1: schedule_from then terminates)
+        g_store_throws = c.geti("sthrow", 0) != 0;
         auto snd = ex::schedule_from(manual_scheduler{trg[1]}, manual_sender<cval>{trg[0]});
         using S = decltype(snd);
         if (c.geti("life", 0) != 0)
